@@ -95,3 +95,48 @@ impl Program {
         self.ops.iter().filter(|o| matches!(o, Op::Commit { .. })).count()
     }
 }
+
+/// Preorder visit of every op (closure bodies at the position of their registration).
+pub fn visit_ops_mut(ops: &mut [Op], f: &mut dyn FnMut(&mut Op, bool), in_closure: bool) {
+    for op in ops.iter_mut() {
+        f(op, in_closure);
+        if let Op::Randomized(body) = op {
+            visit_ops_mut(body, f, true);
+        }
+    }
+}
+pub fn visit_ops(ops: &[Op], f: &mut dyn FnMut(&Op, bool), in_closure: bool) {
+    for op in ops.iter() {
+        f(op, in_closure);
+        if let Op::Randomized(body) = op {
+            visit_ops(body, f, true);
+        }
+    }
+}
+
+impl Program {
+    /// (number of Constrain ops, for each whether it sits in a closure)
+    pub fn constrain_sites(&self) -> Vec<bool> {
+        let mut v = vec![];
+        visit_ops(&self.ops, &mut |op, c| {
+            if matches!(op, Op::Constrain { .. }) {
+                v.push(c)
+            }
+        }, false);
+        v
+    }
+    /// Copy of the program in which the k-th Constrain op (preorder) has its constant shifted by d.
+    pub fn with_row_shift(&self, k: usize, d: Sc) -> Program {
+        let mut p = self.clone();
+        let mut i = 0;
+        visit_ops_mut(&mut p.ops, &mut |op, _| {
+            if let Op::Constrain { fix, .. } = op {
+                if i == k {
+                    *fix = Fix::BalancePlus(d.clone());
+                }
+                i += 1;
+            }
+        }, false);
+        p
+    }
+}
